@@ -100,7 +100,7 @@ def h_intr(cfg):
             except Interrupt as it:
                 hseq = handler if isinstance(handler, list) else [handler]
                 h = hseq[min(len(receipts), len(hseq) - 1)]
-                receipts.append({'cause': it.cause, 'now': env.now, 'step': step[0]})
+                receipts.append({'cause': it.cause, 'now': env.now, 'step': step[0], 'exact_type': type(it) is Interrupt})
                 glog.append(('receipt', step[0], env.now, None))
                 if h == 'finish' or h == 'return':
                     return 'fin'
@@ -132,7 +132,12 @@ def h_intr(cfg):
             vic = box['victim']
             if vic is None:
                 continue
-            cause = sym_int('c%d' % ncause[0])
+            if cfg.get('cause_objects'):
+                # arbitrary objects as causes: an Interrupt instance (a forwarded interrupt), other exceptions, falsy values
+                pool = [Interrupt('inner'), None, '', (), ValueError('x'), 0.0, False, Interrupt(None)]
+                cause = pool[(ncause[0] + cfg['cause_objects']) % len(pool)]
+            else:
+                cause = sym_int('c%d' % ncause[0])
             ncause[0] += 1
             alive = vic.is_alive
             try:
@@ -189,7 +194,11 @@ def h_intr(cfg):
     check('c04.no-more-receipts-than-issues', len(receipts) <= len(issues))
     for i, rc in enumerate(receipts[:len(issues)]):
         iss = issues[i]
-        check('c04.cause', eq(rc['cause'], iss['cause']), i)
+        if cfg.get('cause_objects'):
+            check('c04.cause', rc['cause'] is iss['cause'] and rc['exact_type'], (i, type(iss['cause']).__name__))
+            cover('object-causes')
+        else:
+            check('c04.cause', eq(rc['cause'], iss['cause']) and rc['exact_type'], i)
         check('c04.delivered-at-issue-instant', eq(rc['now'], iss['now']), i)
         between = [g for g in glog if g[0] == 'ord' and iss['step'] < g[1] < rc['step']]
         check('c04.ahead-of-ordinary-events', not between, (i, between[:2]))
@@ -241,6 +250,11 @@ def jobs(tier, seed):
                     js.append({'harness': 'intr', 'cfg': cfg, 'weight': 6 ** sum(intr)})
     js.append({'harness': 'intr', 'cfg': {'wait_on': 'timeout', 'handler': 'rewait', 'interrupters': [2], 'cowaiter': False,
                                           'sorts': 'int', 'spawn_by_interrupter': True}, 'weight': 30})
+    # causes that are arbitrary objects
+    for off in (1, 4, 8):
+        js.append({'harness': 'intr', 'weight': 20,
+                   'cfg': {'wait_on': 'timeout', 'handler': 'rewait', 'interrupters': [3], 'cowaiter': False, 'sorts': 'int',
+                           'cause_objects': off}})
     # the awaited event is a condition (any_of / all_of over two timeouts)
     for wait_on in ('cond-any', 'cond-all'):
         for handler in ('rewait', 'other', ['other', 'rewait'], 'finish'):
@@ -276,7 +290,7 @@ META = {
                         'c04.resumed-with-the-yielded-events-value', 'c04.no-spurious-resume', 'c04.runtime-error-only-if-dead',
                         'c04.cowaiter-exactly-once', 'c04.started-before-first-interrupt'],
     'required_covers': ['nontrivial', 'several-received', 'pending-discarded', 'dead-victim-refused', 'self-interrupt-refused',
-                        're-yield-of-processed-target', 'victim-raised'],
+                        're-yield-of-processed-target', 'victim-raised', 'object-causes'],
     'bounds': {'quick': 'one victim waiting on a timeout / shared event / child / any_of or all_of condition over two timeouts; handlers finish, re-wait, wait for another timeout, raise; '
                         '1-2 interrupters issuing <= 2 interrupts at symbolic instants with symbolic causes; optional co-waiter; victim '
                         'spawned and interrupted in one instant; self-interrupt attempt',
